@@ -41,6 +41,46 @@ type sessConn struct {
 	AckAfter     []int  `json:"ack_after,omitempty"`
 	AckVia       string `json:"ack_via,omitempty"`
 	NoSendDuring bool   `json:"no_send_during,omitempty"`
+	// HeldSend (C04, needs sessIn.HoldWrites and an established earlier session): BEFORE this connection attempt is
+	// started a goroutine calls client.Send; the send passes the gate and is suspended at the entry of the transport's
+	// Write (a sender descheduled there). The attempt is then started: it must not dial while that write is in flight
+	// (observed for 150 ms: does the server get a new connection?). Then the sender is released.
+	HeldSend bool `json:"held_send,omitempty"`
+}
+
+// holdTransport: pass-through around the client's transport; the Write that carries the armed marker waits at its
+// entry until released.
+type holdTransport struct {
+	xmpp.Transport
+	mu      sync.Mutex
+	marker  string
+	entered chan struct{}
+	release chan struct{}
+}
+
+func (h *holdTransport) arm(marker string) {
+	h.mu.Lock()
+	h.marker, h.entered, h.release = marker, make(chan struct{}), make(chan struct{})
+	h.mu.Unlock()
+}
+
+func (h *holdTransport) Write(p []byte) (int, error) {
+	h.mu.Lock()
+	m, entered, release := h.marker, h.entered, h.release
+	if m != "" && strings.Contains(string(p), m) {
+		h.marker = ""
+	} else {
+		m = ""
+	}
+	h.mu.Unlock()
+	if m != "" {
+		close(entered)
+		select {
+		case <-release:
+		case <-time.After(10 * time.Second):
+		}
+	}
+	return h.Transport.Write(p)
 }
 
 // sendObs: what became of one application send: the error Send returned, and where the server saw the marker
@@ -66,9 +106,19 @@ type sessIn struct {
 	// Patient: the scripted server sends its answers item by item and notes how many items it had sent when each
 	// client request showed up (connScript.PeekMs): "each request only after the previous step was confirmed"
 	Patient bool `json:"patient,omitempty"`
+	// C04: SessionCache: the TLS configuration carries a ClientSessionCache (crypto/tls may then resume, on a later
+	// connection of this client, the TLS session of an earlier one); Tickets: what the server does about session
+	// tickets (connScript.Tickets). HoldWrites: the client's transport is wrapped by a pass-through that can suspend
+	// one Write at its entry (sessConn.HeldSend).
+	SessionCache bool   `json:"session_cache,omitempty"`
+	Tickets      string `json:"tickets,omitempty"`
+	HoldWrites   bool   `json:"hold_writes,omitempty"`
 	// User / Secret (C14): local part of the configured JID and the password or token; "" = "user" / "secret" ("token")
 	User   string `json:"user,omitempty"`
 	Secret string `json:"secret,omitempty"`
+	// WS (C03): "" the TCP transport; "ws" / "wss": the WebSocket transport against a scripted websocket endpoint
+	// (plain / over TLS): see c03ws.go. No STARTTLS there, no traffic phase.
+	WS string `json:"ws,omitempty"`
 }
 
 func (in sessIn) user() string {
@@ -103,6 +153,9 @@ func (in sessIn) tlsOutcome(cert string) bool {
 	sn := in.ServerName
 	if sn == "" {
 		sn = srvDomain
+	}
+	if cert == "both" { // valid for the domain and for other.example
+		return sn == srvDomain || sn == "other.example"
 	}
 	certName := map[string]string{"valid": srvDomain, "wronghost": "other.example", "untrusted": srvDomain, "expired": srvDomain}[cert]
 	if cert == "untrusted" || cert == "expired" {
@@ -229,12 +282,25 @@ func sessInputSx(in sessIn) Sx {
 				if it.T == "wait" {
 					continue
 				}
+				if in.WS != "" && it.T == "close" {
+					// over a websocket the stream is closed by <close xmlns='urn:ietf:params:xml:ns:xmpp-framing'/>,
+					// which the stream parser does not know: an element in an unknown namespace
+					items = append(items, L(Z(16)))
+					continue
+				}
 				items = append(items, itemSx(it))
 			}
 		}
 		conns = append(conns, L(B(!c.NoDial), B(in.tlsOutcome(c.Cert)), LS(items), Zi(c.Traffic)))
 	}
-	return L(L(B(in.Insecure), SBytes(in.Resource), B(in.SMResume), LS(ms)), B(in.SMEnable), LS(conns))
+	cfg := L(B(in.Insecure), SBytes(in.Resource), B(in.SMResume), LS(ms))
+	switch in.WS {
+	case "ws":
+		cfg.L = append(cfg.L, Z(1))
+	case "wss":
+		cfg.L = append(cfg.L, Z(2))
+	}
+	return L(cfg, B(in.SMEnable), LS(conns))
 }
 
 // ---- running against the implementation ----
@@ -286,6 +352,8 @@ type sessObs struct {
 	tlsLogs  []string
 	sends    [][]sendObs // per connection: the sends during the attempt, then those after it (C04)
 	resends  [][]sendObs // per connection: the acknowledgements applied during the attempt, then those after it (C04)
+	resumed  []bool      // per connection: the server saw the TLS session resumed (C04)
+	held     [][2]bool   // per connection with a held send: the attempt dialled while the write was in flight; the stanza showed up in clear on the new connection (C04)
 	flags    [][2]bool   // per connection, afterwards: XMPPTransport.isSecure, Session.TlsEnabled (false without a session) (C04)
 }
 type sessSnap struct {
@@ -318,6 +386,7 @@ func runSessionRaw(in sessIn) (*sessObs, Sx) {
 		if c.SendDuring == "certfail" {
 			sc.LingerMs = 3000
 		}
+		sc.Tickets = in.Tickets
 		if c.SendDuring != "" {
 			sc.IdleDropMs = 8000 // the runner cuts the connection itself when it has seen what it needs
 		}
@@ -350,6 +419,9 @@ func runSessionRaw(in sessIn) (*sessObs, Sx) {
 	case 1:
 		cfg.TLSConfig = &tls.Config{InsecureSkipVerify: true, ServerName: in.ServerName}
 	}
+	if in.SessionCache && cfg.TLSConfig != nil {
+		cfg.TLSConfig.ClientSessionCache = tls.NewLRUClientSessionCache(8)
+	}
 	var mu sync.Mutex
 	handled := 0
 	estab := 0
@@ -365,6 +437,11 @@ func runSessionRaw(in sessIn) (*sessObs, Sx) {
 	client, err := xmpp.NewClient(cfg, router, func(error) {})
 	if err != nil {
 		return nil, L(SBytes("newclient-failed: " + err.Error()))
+	}
+	var holder *holdTransport
+	if in.HoldWrites {
+		holder = &holdTransport{Transport: xmpp.VerifTransport(client)}
+		xmpp.VerifSetTransport(client, holder)
 	}
 	client.SetHandler(func(e xmpp.Event) error {
 		if xmpp.VerifEventState(e) == xmpp.StateSessionEstablished {
@@ -388,8 +465,41 @@ func runSessionRaw(in sessIn) (*sessObs, Sx) {
 			// nobody listens on the port for the duration of this attempt
 			srv.ln.Close()
 		}
+		// C04: a sender that has passed the gate and sits at the entry of the transport's Write while the attempt starts
+		heldMarker := ""
+		var heldDone chan error
+		if c.HeldSend && holder != nil && !c.NoDial {
+			heldMarker = fmt.Sprintf("%s%d-h", sendMarker, len(conns))
+			holder.arm(heldMarker)
+			heldDone = make(chan error, 1)
+			go func(m string) {
+				heldDone <- client.Send(stanza.Message{Attrs: stanza.Attrs{Id: m, To: "peer@" + srvDomain, Type: stanza.MessageTypeChat}, Body: m})
+			}(heldMarker)
+			select {
+			case <-holder.entered:
+			case err := <-heldDone: // refused at the gate (or failed before the write): nothing is in flight
+				heldDone <- err
+				heldMarker = ""
+			case <-time.After(5 * time.Second):
+				heldMarker = ""
+			}
+		}
 		done := make(chan error, 1)
 		go func() { done <- xmpp.VerifClientConnect(client) }()
+		held := [2]bool{}
+		if heldMarker != "" {
+			// does the attempt dial while the write is in flight?
+			until := time.Now().Add(150 * time.Millisecond)
+			for time.Now().Before(until) && !held[0] {
+				held[0] = len(srv.snapshot()) > srvIdx
+				time.Sleep(500 * time.Microsecond)
+			}
+			close(holder.release)
+			select {
+			case <-heldDone:
+			case <-time.After(10 * time.Second):
+			}
+		}
 		var sends, resends []sendObs
 		var markers []string
 		// retransmission: apply <a h/> to the held stanzas; did any of their markers show up at the server AGAIN, where?
@@ -546,6 +656,8 @@ func runSessionRaw(in sessIn) (*sessObs, Sx) {
 			ob.elems = append(ob.elems, nil)
 			ob.clear = append(ob.clear, nil)
 			ob.tlsLogs = append(ob.tlsLogs, "")
+			ob.resumed = append(ob.resumed, false)
+			ob.held = append(ob.held, [2]bool{})
 			mu.Lock()
 			estabEnd := estab
 			ob.estab = append(ob.estab, estabEnd)
@@ -627,6 +739,11 @@ func runSessionRaw(in sessIn) (*sessObs, Sx) {
 		ob.elems = append(ob.elems, lg.Elems)
 		ob.clear = append(ob.clear, lg.ClearBy)
 		ob.tlsLogs = append(ob.tlsLogs, lg.TLS)
+		ob.resumed = append(ob.resumed, lg.Resumed)
+		if heldMarker != "" {
+			held[1] = strings.Contains(string(lg.ClearBy)+"\x00"+string(lg.RawBy), heldMarker)
+		}
+		ob.held = append(ob.held, held)
 		mu.Lock()
 		estabEnd := estab
 		mu.Unlock()
